@@ -80,9 +80,9 @@ Definition suite_C06 (inp obs : list tok) : verdict :=
 (* Bytes::store / Bytes::load at slice, region and guest-memory level all reach
    VolatileSlice::get_atomic_ref on a page-aligned container. *)
 Definition run_C06atomic (c : case06a) : obs06a :=
-  let s := {| vs_addr := GB; vs_size := a_len c |} in
+  let s := {| vs_addr := GB + a_skew c; vs_size := a_len c |} in
   match get_atomic_ref (a_mode c) s (a_goff c) (a_size c) with
-  | Val (Ok a) => {| p_st := 0; p_off := wsub a (GB + a_goff c); p_rt := 1 |}
+  | Val (Ok a) => {| p_st := 0; p_off := wsub a (GB + a_skew c + a_goff c); p_rt := 1 |}
   | Val (Err EMisaligned) =>
       (* guest_memory.rs:87-104 `impl From<volatile_memory::Error> for Error`: at region and
          guest-memory level (ep 1, 2) every refusal becomes InvalidBackendAddress *)
@@ -93,14 +93,19 @@ Definition run_C06atomic (c : case06a) : obs06a :=
 
 Definition enc06a (o : obs06a) : list tok := [TN (p_st o); TN (p_off o); TN (p_rt o)].
 
+Definition c06atomic_k (md ep size goff len skew st off rt : N) : verdict :=
+  if is_word size && (goff <? W64) && (len <? 1048576) && (skew <? 8) then
+    let c := {| a_mode := mode_of md; a_ep := ep; a_size := size; a_goff := goff; a_len := len; a_skew := skew |} in
+    let o := {| p_st := st; p_off := off; p_rt := rt |} in
+    {| v_model := enc06a (run_C06atomic c); v_ok := ok_C06atomic c o; v_wellformed := true |}
+  else malformed.
 Definition suite_C06atomic (inp obs : list tok) : verdict :=
   match inp, obs with
   | [TN md; TN ep; TN size; TN goff; TN len], [TN st; TN off; TN rt] =>
-      if is_word size && (goff <? W64) && (len <? 1048576) then
-        let c := {| a_mode := mode_of md; a_ep := ep; a_size := size; a_goff := goff; a_len := len |} in
-        let o := {| p_st := st; p_off := off; p_rt := rt |} in
-        {| v_model := enc06a (run_C06atomic c); v_ok := ok_C06atomic c o; v_wellformed := true |}
-      else malformed
+      c06atomic_k md ep size goff len 0 st off rt
+  | [TN md; TN ep; TN size; TN goff; TN len; TN skew], [TN st; TN off; TN rt] =>
+      (* a skewed container exists only at slice level (ep 0 = Bytes::store/load, 3 = get_atomic_ref) *)
+      if (ep =? 0) || (ep =? 3) then c06atomic_k md ep size goff len skew st off rt else malformed
   | _, _ => malformed
   end.
 
